@@ -16,6 +16,12 @@ package proxy
 // stub is the transport (fnSendRequest): it counts calls per request, holds the
 // request for a scripted time and answers 200, a failure code or a network error.
 //
+// A scenario has one pool, or two pools (main + candidate pool of one Proxy, or
+// the main pools of two Proxy filters) that reference the same
+// circuitBreakerPolicy and are injected from the SAME policies map (one
+// resilience.Policy object per name, as Pipeline.reload does); every call names
+// its pool, outcomes are scripted per call, all bookkeeping below is per pool.
+//
 // Oracle. The harness reads the real breaker's State() (atomic between scheduler
 // gates) before every call, at every transport entry/exit and after every return,
 // and remembers `lastNonOpen`, the latest instant at which it saw a state other
@@ -32,6 +38,11 @@ package proxy
 //   C08.proxy-shortcircuit-while-closed  a call was short-circuited although the breaker was seen CLOSED
 //                                        before and after it and no other call left the transport in
 //                                        between (no result can have been recorded)
+//   C08.proxy-breaker-shared-across-pools  (scenarios with two pools) a pool answered shortCircuited although
+//                                        fewer than minimumNumberOfCalls of ITS OWN calls have left the transport,
+//                                        or none of them failed: its breaker cannot have opened from its own
+//                                        history, while the OTHER pool's history could have opened one (otherwise,
+//                                        and with one pool, the same situation is ...-shortcircuit-while-closed)
 //   C08.proxy-admitted-not-once          an admitted call reached the transport more than once (there is
 //                                        no retry policy) or its outcome is not the transport's
 //   C08.proxy-panic                      a panic escaped ServerPool.handle
@@ -67,6 +78,7 @@ type c08pOp struct {
 	Stream  bool   `json:"stream"`
 	BodyLen int    `json:"body_len"`
 	Outcome string `json:"outcome"` // ok | failcode | neterr
+	Pool    int    `json:"pool"`    // 0 | 1 (only meaningful with two pools)
 	DurUs   int64  `json:"dur_us"`
 }
 
@@ -80,6 +92,8 @@ type c08pScenario struct {
 	MinCalls  int          `json:"min_calls"`
 	Permitted int          `json:"permitted"`
 	WaitMs    int64        `json:"wait_ms"`
+	Pools     int          `json:"pools"`       // 1, or 2 pools injected from the SAME policies map
+	TwoProxy  bool         `json:"two_proxies"` // two pools: main pools of two Proxy filters (else main + candidate pool of one Proxy)
 	Callers   []c08pCaller `json:"callers"`
 }
 
@@ -93,6 +107,11 @@ func c08pGen(rng *sim.Rand, tier string) interface{} {
 	nc := rng.Range(1, 4)
 	total := rng.Range(4, 30)
 	failBias := rng.Pick(30, 60, 90, 100)
+	sc.Pools = rng.Pick(1, 2, 2)
+	sc.TwoProxy = rng.Bool(0.5)
+	// with two pools the second one is often perfectly healthy
+	failBias1 := rng.Pick(0, 0, 0, 10, failBias)
+	share1 := rng.Pick(20, 50, 50, 80)
 	streamPct := rng.Pick(0, 20, 50, 50, 100)
 	sc.Callers = make([]c08pCaller, nc)
 	gaps := []int64{0, 0, 0, 1, 1000, 100000, sc.WaitMs * 1000 / 2, sc.WaitMs*1000 - 1, sc.WaitMs * 1000, sc.WaitMs*1000 + 1}
@@ -107,8 +126,13 @@ func c08pGen(rng *sim.Rand, tier string) interface{} {
 				op.BodyLen = 9
 			}
 		}
+		fb := failBias
+		if sc.Pools == 2 && rng.Intn(100) < share1 {
+			op.Pool = 1
+			fb = failBias1
+		}
 		switch x := rng.Intn(100); {
-		case x >= failBias:
+		case x >= fb:
 			op.Outcome = "ok"
 		case rng.Bool(0.5):
 			op.Outcome = "failcode"
@@ -130,6 +154,7 @@ type c08pCall struct {
 	openUntil  time.Duration // ... and certainly OPEN before this instant
 	seenClosed bool          // breaker seen CLOSED just before the call
 	exitsAt    int           // transport exits (by any call) counted at the start
+	pool       int
 	quietStart bool          // no other call was between transport exit and return at the start
 	op         c08pOp
 	sends      int
@@ -163,13 +188,40 @@ func c08pExec(r *sim.Run, sci interface{}) {
 	saved := fnSendRequest
 	defer func() { fnSendRequest = saved }()
 
+	// one Policy object per name, handed to every filter / pool, as Pipeline.reload does
+	policies := map[string]resilience.Policy{"c08pcb": pol}
+	nPools := 1
+	if sc.Pools == 2 {
+		nPools = 2
+	}
+	var pools []*ServerPool
 	px := &Proxy{spec: &Spec{}}
-	sp := NewServerPool(px, spec, "c08ppool")
-	sp.InjectResiliencePolicy(map[string]resilience.Policy{"c08pcb": pol})
-	brk, ok := sp.circuitBreakerWrapper.(interface{ State() libcb.State })
-	if !ok {
-		r.Violate("C08.proxy-other", "harness: the pool's circuit breaker wrapper (%T) does not expose State()", sp.circuitBreakerWrapper)
-		return
+	px.mainPool = NewServerPool(px, spec, "c08ppool0")
+	pools = append(pools, px.mainPool)
+	if nPools == 2 {
+		spec1 := &ServerPoolSpec{Servers: []*Server{{URL: "http://10.1.0.2:8080"}}, FailureCodes: []int{503}, CircuitBreakerPolicy: "c08pcb"}
+		if sc.TwoProxy {
+			px1 := &Proxy{spec: &Spec{}}
+			px1.mainPool = NewServerPool(px1, spec1, "c08ppool1")
+			pools = append(pools, px1.mainPool)
+			px.InjectResiliencePolicy(policies)
+			px1.InjectResiliencePolicy(policies)
+		} else {
+			px.candidatePools = []*ServerPool{NewServerPool(px, spec1, "c08ppool1")}
+			pools = append(pools, px.candidatePools[0])
+			px.InjectResiliencePolicy(policies)
+		}
+	} else {
+		px.InjectResiliencePolicy(policies)
+	}
+	var brk []interface{ State() libcb.State }
+	for _, sp := range pools {
+		b, ok := sp.circuitBreakerWrapper.(interface{ State() libcb.State })
+		if !ok {
+			r.Violate("C08.proxy-other", "harness: the pool's circuit breaker wrapper (%T) does not expose State()", sp.circuitBreakerWrapper)
+			return
+		}
+		brk = append(brk, b)
 	}
 
 	var hist []string
@@ -188,20 +240,24 @@ func c08pExec(r *sim.Run, sci interface{}) {
 		return strings.Join(h, " | ")
 	}
 	describe := func() string {
-		return fmt.Sprintf("breaker: COUNT_BASED window=%d minCalls=%d failureRate=%d%% permittedInHalfOpen=%d waitDurationInOpenState=%v", sc.Window, sc.MinCalls, sc.FailPct, sc.Permitted, wait)
+		return fmt.Sprintf("pools=%d (two proxies: %v, one policy object injected into all) breaker: COUNT_BASED window=%d minCalls=%d failureRate=%d%% permittedInHalfOpen=%d waitDurationInOpenState=%v", nPools, sc.TwoProxy && nPools == 2, sc.Window, sc.MinCalls, sc.FailPct, sc.Permitted, wait)
 	}
 
-	lastNonOpen := time.Duration(0) // created CLOSED at simulated time 0
-	observe := func() libcb.State {
-		s := brk.State()
+	// all breaker bookkeeping is per pool (each pool must have its own breaker)
+	lastNonOpen := make([]time.Duration, nPools) // created CLOSED at simulated time 0
+	observe := func(p int) libcb.State {
+		s := brk[p].State()
 		if s != libcb.StateOpen {
-			lastNonOpen = r.Now()
+			lastNonOpen[p] = r.Now()
 		}
 		return s
 	}
 	// postExit: calls that left the transport and have not yet returned from handle() (their
 	// result may still be waiting to be recorded)
-	transportExits, totalSends, postExit := 0, 0, 0
+	transportExits, postExit := make([]int, nPools), make([]int, nPools)
+	failedExits := make([]int, nPools) // own calls that left the transport with a failing outcome
+	totalSends := 0
+	var sawCleanPoolServed bool
 	inflight := map[string]*c08pCall{}
 	var sawShort, sawShortStream, sawHalfOpen, sawReopen bool
 	opened := 0
@@ -217,7 +273,7 @@ func c08pExec(r *sim.Run, sci interface{}) {
 		if hr.Body != nil {
 			io.Copy(io.Discard, hr.Body)
 		}
-		state := observe()
+		state := observe(st.pool)
 		note("%s send#%d [%v]", st.name, st.sends, state)
 		if !r.Violated() {
 			switch {
@@ -233,9 +289,12 @@ func c08pExec(r *sim.Run, sci interface{}) {
 		if !r.Violated() && !r.Aborted() {
 			r.Sleep(d)
 		}
-		observe()
-		transportExits++
-		postExit++
+		observe(st.pool)
+		transportExits[st.pool]++
+		postExit[st.pool]++
+		if st.outcome != "ok" {
+			failedExits[st.pool]++
+		}
 		switch st.outcome {
 		case "failcode":
 			return &http.Response{StatusCode: 503, Header: http.Header{}, Body: http.NoBody}, nil
@@ -263,7 +322,12 @@ func c08pExec(r *sim.Run, sci interface{}) {
 				if r.Violated() || r.Aborted() {
 					return
 				}
-				name := fmt.Sprintf("c%d.%d", ci, oi)
+				pi := 0
+				if nPools == 2 && op.Pool == 1 {
+					pi = 1
+				}
+				sp := pools[pi]
+				name := fmt.Sprintf("c%d.%d/p%d", ci, oi, pi)
 				path := fmt.Sprintf("/c%d/%d", ci, oi)
 				if op.BodyLen < 0 || op.BodyLen > 1<<16 {
 					op.BodyLen = 0
@@ -292,12 +356,12 @@ func c08pExec(r *sim.Run, sci interface{}) {
 				ctx := egctx.New(tracing.NoopSpan)
 				ctx.SetRequest(egctx.DefaultNamespace, req)
 
-				st := &c08pCall{name: name, op: op, stream: op.Stream, startAt: r.Now(), exitsAt: transportExits, quietStart: postExit == 0}
+				st := &c08pCall{name: name, op: op, pool: pi, stream: op.Stream, startAt: r.Now(), exitsAt: transportExits[pi], quietStart: postExit[pi] == 0}
 				inflight[path] = st
-				s0 := observe()
+				s0 := observe(pi)
 				switch s0 {
 				case libcb.StateOpen:
-					st.seenOpen, st.openUntil = true, lastNonOpen+wait
+					st.seenOpen, st.openUntil = true, lastNonOpen[pi]+wait
 				case libcb.StateClosed:
 					st.seenClosed = true
 				case libcb.StateHalfOpen:
@@ -316,9 +380,9 @@ func c08pExec(r *sim.Run, sci interface{}) {
 					}()
 					result = sp.handle(ctx, false)
 				}()
-				s1 := observe()
-				postExit -= st.sends
-				exitsByOthers := transportExits - st.exitsAt - st.sends
+				s1 := observe(pi)
+				postExit[pi] -= st.sends
+				exitsByOthers := transportExits[pi] - st.exitsAt - st.sends
 				delete(inflight, path)
 				status, hasResp := 0, false
 				if pnc == nil {
@@ -344,6 +408,20 @@ func c08pExec(r *sim.Run, sci interface{}) {
 				case st.sends == 0 && result != "shortCircuited":
 					r.Violate("C08.proxy-not-forwarded-wrong-result", "call %s (stream=%v) never reached the transport (breaker %v before, %v after) but is reported as result %q status %d instead of shortCircuited / 503\n%s\nhistory: %s",
 						name, op.Stream, s0, s1, result, status, describe(), history())
+				case st.sends == 0 && (transportExits[pi] < sc.MinCalls || failedExits[pi] == 0):
+					// opening needs >= minimumNumberOfCalls recorded results with at least one failure
+					// (slow calls are impossible: threshold 24h); results are recorded after the transport
+					cls, other := "C08.proxy-shortcircuit-while-closed", ""
+					if nPools == 2 {
+						o := 1 - pi
+						if transportExits[o]+transportExits[pi] >= sc.MinCalls && failedExits[o] > 0 {
+							// only a window that also holds the other pool's results can explain an open breaker
+							cls = "C08.proxy-breaker-shared-across-pools"
+						}
+						other = fmt.Sprintf("; the OTHER pool p%d has %d completed transport call(s), %d failed", o, transportExits[o], failedExits[o])
+					}
+					r.Violate(cls, "call %s (stream=%v) on pool p%d was short-circuited although only %d call(s) of this pool have left the transport so far, %d of them failed (opening needs >= %d results with at least one failure)%s\n%s\nhistory: %s",
+						name, op.Stream, pi, transportExits[pi], failedExits[pi], sc.MinCalls, other, describe(), history())
 				case st.sends == 0 && st.seenClosed && s1 == libcb.StateClosed && exitsByOthers == 0 && st.quietStart:
 					r.Violate("C08.proxy-shortcircuit-while-closed", "call %s (stream=%v) was short-circuited although the breaker was CLOSED before and after it and no other call left the transport in between\n%s\nhistory: %s", name, op.Stream, describe(), history())
 				case st.sends == 1:
@@ -357,6 +435,9 @@ func c08pExec(r *sim.Run, sci interface{}) {
 					if result != want || !hasResp || status != wantStatus {
 						r.Violate("C08.proxy-admitted-not-once", "call %s was admitted, the transport answered %q, but the pool reports result %q status %d (expected %q / %d)\n%s\nhistory: %s", name, st.outcome, result, status, want, wantStatus, describe(), history())
 					}
+				}
+				if nPools == 2 && st.sends == 1 && failedExits[pi] == 0 && failedExits[1-pi] > 0 && brk[1-pi].State() == libcb.StateOpen {
+					sawCleanPoolServed = true
 				}
 				if st.sends == 0 && !r.Violated() {
 					sawShort = true
@@ -384,11 +465,13 @@ func c08pExec(r *sim.Run, sci interface{}) {
 	probe(sawHalfOpen, "c08p.call_started_in_half_open")
 	probe(sawReopen, "c08p.opened_twice")
 	probe(len(sc.Callers) >= 2, "c08p.concurrent_callers")
+	probe(nPools == 2, "c08p.two_pools_one_policy_object")
+	probe(sawCleanPoolServed, "c08p.clean_pool_served_while_other_pool_open")
 	if sawShort {
 		r.Nontrivial()
 	}
 	var sig strings.Builder
-	fmt.Fprintf(&sig, "%d/%d/%d/%d/%d|", sc.FailPct, sc.Window, sc.MinCalls, sc.Permitted, sc.WaitMs)
+	fmt.Fprintf(&sig, "%d/%v|%d/%d/%d/%d/%d|", nPools, sc.TwoProxy, sc.FailPct, sc.Window, sc.MinCalls, sc.Permitted, sc.WaitMs)
 	for _, h := range hist {
 		if i := strings.IndexByte(h, '@'); i > 0 {
 			sig.WriteString(h[:i])
@@ -421,13 +504,14 @@ func TestVerifC08P(t *testing.T) {
 		New:      func() interface{} { return &c08pScenario{} },
 		Exec:     c08pExec,
 		MaxSteps: 30000,
-		Rule: "scenario = drawn COUNT_BASED breaker (window 1-6, minCalls, failure rate, permitted trials 1-3, open wait 50ms-24h) injected into a real ServerPool + 1-4 caller tasks issuing 4-30 buffered or STREAM requests with scripted transport outcomes (200, failure code, network error) and hold times, gaps incl. the exact open wait; " +
+		Rule: "scenario = one pool, or two pools (main+candidate of one Proxy / two Proxies) injected from the same policies map, the second often perfectly healthy; drawn COUNT_BASED breaker (window 1-6, minCalls, failure rate, permitted trials 1-3, open wait 50ms-24h) injected into a real ServerPool + 1-4 caller tasks issuing 4-30 buffered or STREAM requests with scripted transport outcomes (200, failure code, network error) and hold times, gaps incl. the exact open wait; " +
 			"non-trivial = at least one call was short-circuited; distinct = distinct (policy, call/send/return event order with breaker states) signatures",
 		Real: []string{"pkg/filters/proxy ServerPool (NewServerPool, InjectResiliencePolicy, handle, doHandle, buildFailureResponse)", "pkg/resilience (NewPolicy, CircuitBreakerPolicy.CreateWrapper, circuitBreakerWrapper.Wrap)", "pkg/util/circuitbreaker", "pkg/protocols/httpprot Request (buffered and stream payloads)"},
 		Stub: []string{"transport: fnSendRequest replaced by a counting scripted backend", "callers are harness tasks", "sync.Mutex -> simsync, sync/atomic -> simatomic (same semantics + gates)"},
 		Assumptions: []string{
 			"the breaker's State() read between two scheduler gates is its current state; an OPEN episode seen at t began after the last instant a non-OPEN state was seen, so it lasts at least until that instant + waitDurationInOpenState",
 			"the only reason for a call not to reach the transport is the breaker (one static server, no retry, no timeout, no cache)",
+			"breakers are per pool: a pool can only be short-circuited after >= minimumNumberOfCalls of its own calls left the transport, at least one of them failing (results are recorded after the transport returns; slow calls impossible with a 24h threshold)",
 			"which calls are admitted in HALF_OPEN and when the breaker trips is property C08 proper and not asserted here",
 		},
 	})
